@@ -93,6 +93,11 @@ impl<'a> SendLastStateProofProcess<'a> {
             print_headers(&headers);
         }
 
+        // Check chain root for all headers.
+        // It also ensures that the total difficulties of the headers are representable, which
+        // are required by the following checks.
+        return_if_failed!(self.protocol.check_chain_root_for_headers(headers.iter()));
+
         // Check if the response is match the request.
         let (reorg_count, sampled_count, last_n_count) =
             return_if_failed!(check_if_response_is_matched(
@@ -108,9 +113,6 @@ impl<'a> SendLastStateProofProcess<'a> {
             sampled_count,
             last_n_count
         );
-
-        // Check chain root for all headers.
-        return_if_failed!(self.protocol.check_chain_root_for_headers(headers.iter()));
 
         let headers = headers
             .iter()
